@@ -387,6 +387,12 @@ func runC07(c *Ctx) {
 	}
 	c.Min("C07.P1", 7)
 	c.Assume("the 'if' direction (every conforming request is accepted) is not decided; encoding/json, net/url and go-jose are trusted not to reject conforming input")
+	// "only well-formed hashes and commitments": what the multihash helpers accept and what IsValidModelMultihash
+	// compares (whole digests, recomputed with the supplied code) is the subject of C06
+	runC06(c)
+	// "only alg/kid protected headers, an allowed algorithm": decided on the decoded header map — the decoder must
+	// refuse a header that spells a member twice
+	c.strictHeaderDecoderRule()
 }
 
 // keyReuse: success implies the false edge of GetCommitment(key, code(next)) == next.
@@ -444,6 +450,30 @@ func (c *Ctx) configSinks() {
 				}
 			case *ssa.Slice:
 				followElem(fld, x, d+1)
+			case *ssa.Return:
+				// a helper of the module that picks the element and hands it back: followed at its call sites
+				g := x.Parent()
+				if g == nil || !inModule(g) || g.Object() == nil || g.Object().Exported() {
+					continue
+				}
+				for idx, res := range x.Results {
+					if res != v {
+						continue
+					}
+					for _, h := range c.Funcs {
+						forEachInstr(h, func(in ssa.Instruction) {
+							cl, isC := in.(*ssa.Call)
+							if !isC || cl.Call.StaticCallee() != g {
+								return
+							}
+							if len(x.Results) == 1 {
+								followElem(fld, cl, d+1)
+							} else if ev := extractOf(cl, idx); ev != nil {
+								followElem(fld, ev, d+1)
+							}
+						})
+					}
+				}
 			}
 		}
 	}
